@@ -13,6 +13,8 @@
 EXTENDS DAS, Json
 
 CONSTANTS MaxSteps, SimDepth,
+          AllowTailAdvance,   \* BOOLEAN: the header store may prune while the DASer is down
+
           SpawnFirst   \* TRUE (simulation configs): the environment waits while the coordinator is
                        \* in its job loop -- scripts the driver can follow step by step; FALSE
                        \* (exhaustive configs): every interleaving
@@ -46,6 +48,7 @@ MCWorkerCtxDone == Bounded /\ Quiet /\ (\E id \in DOMAIN jobs : WorkerCtxDone(id
 MCStopFinal == Bounded /\ StopFinal /\ UNCHANGED hist
 MCCrash == Bounded /\ Quiet /\ Crash /\ Log(Rec("crash", 0, 0))
 MCStoreAdvance == Bounded /\ \E h \in Heights : StoreAdvance(h) /\ Log(Rec("storeadvance", h, 0))
+MCTailAdvance == Bounded /\ AllowTailAdvance /\ \E t \in Heights : TailAdvance(t) /\ Log(Rec("tailadvance", t, 0))
 MCWorkerStep == Bounded /\ Quiet /\ \E id \in DOMAIN jobs, o \in {"ok", "outside", "fail", "cancel"} :
                   WorkerStep(id, o) /\ Log(Rec("step", id, o))
 MCBackoffExpire == Bounded /\ Quiet /\ \E h \in Heights : BackoffExpire(h) /\ Log(Rec("expire", h, 0))
@@ -53,7 +56,7 @@ MCBackoffExpire == Bounded /\ Quiet /\ \E h \in Heights : BackoffExpire(h) /\ Lo
 MCNext ==
   \/ MCStart \/ MCSpawnRetry \/ MCSpawnCatchup \/ MCSpawnEnd \/ MCNewHead \/ MCDeliver \/ MCPoke
   \/ MCBgSnapshot \/ MCBgPersist \/ MCStopBegin \/ MCStopCancel \/ MCCoordCtxDone
-  \/ MCWorkerCtxDone \/ MCStopFinal \/ MCCrash \/ MCStoreAdvance \/ MCWorkerStep \/ MCBackoffExpire
+  \/ MCWorkerCtxDone \/ MCStopFinal \/ MCCrash \/ MCStoreAdvance \/ MCTailAdvance \/ MCWorkerStep \/ MCBackoffExpire
 
 MCSpec == MCInit /\ [][MCNext]_mcvars
 
